@@ -323,14 +323,15 @@ func (e *Eng) execAssign(st *State, s *ast.AssignStmt) *State {
 	// assignment anchors: at `assign <lhs text>` requires E   (rhs0 = the value being stored; for `assign
 	// base[*]` additionally idx = the index value). Evaluated before the store, so names denote old values;
 	// a variable being defined by := denotes its initial value.
-	if e.con != nil && len(e.con.At) > 0 && len(s.Lhs) == 1 {
-		keys := []string{"assign " + e.srcFull(s.Lhs[0])}
+	// (a parallel assignment `a, b = x, y` is one such event per left-hand side)
+	for li := 0; e.con != nil && len(e.con.At) > 0 && li < len(s.Lhs) && len(s.Lhs) == len(vals); li++ {
+		keys := []string{"assign " + e.srcFull(s.Lhs[li])}
 		var idxVal *Val
-		if ix, ok := ast.Unparen(s.Lhs[0]).(*ast.IndexExpr); ok {
+		if ix, ok := ast.Unparen(s.Lhs[li]).(*ast.IndexExpr); ok {
 			keys = append(keys, "assign "+e.srcFull(ast.Unparen(ix.X))+"[*]")
 			idxVal = e.eval(st, ix.Index)
 		}
-		if sx, ok := ast.Unparen(s.Lhs[0]).(*ast.SelectorExpr); ok {
+		if sx, ok := ast.Unparen(s.Lhs[li]).(*ast.SelectorExpr); ok {
 			if id, ok := ast.Unparen(sx.X).(*ast.Ident); ok {
 				keys = append(keys, "assign "+id.Name+".*")
 			}
@@ -345,14 +346,14 @@ func (e *Eng) execAssign(st *State, s *ast.AssignStmt) *State {
 			}
 			e.con.atUsed[key] = true
 			env := e.specEnvFromState(st)
-			env["rhs0"] = vals[0]
+			env["rhs0"] = vals[li]
 			if idxVal != nil {
 				env["idx"] = idxVal
 			}
-			env["rhsNonNull"] = scalar(strconv.FormatBool(e.rhsNonNull(s.Rhs[0])), "Bool", nil)
-			if id, ok := s.Lhs[0].(*ast.Ident); ok && s.Tok == token.DEFINE {
+			env["rhsNonNull"] = scalar(strconv.FormatBool(e.rhsNonNull(s.Rhs[li])), "Bool", nil)
+			if id, ok := s.Lhs[li].(*ast.Ident); ok && s.Tok == token.DEFINE {
 				if _, has := env[id.Name]; !has || e.info.Defs[id] != nil {
-					env[id.Name] = vals[0]
+					env[id.Name] = vals[li]
 				}
 			}
 			for _, cl := range cls {
